@@ -94,7 +94,7 @@ CHECKS["C17"] = {
         {"pkg": "pkg/rendezvous", "run": "^TestVerif_C17_", Q: {"timeout": 300}, T: {"timeout": 3000, "shards": 8}},
         {"pkg": ".", "run": "^TestVerif_C17_", Q: {"timeout": 600}, T: {"timeout": 3000, "shards": 8}},
     ],
-    "mandatory_labels": {"all": ["pure/period-boundary", "hist/observed-across-deadline", "hist/registered-in-earlier-period", "hist/cross-accept",
+    "mandatory_labels": {"all": ["pure/period-boundary", "pure/key-longer-than-block", "hist/observed-across-deadline", "hist/registered-in-earlier-period", "hist/cross-accept",
                                  "hist/own-previous-in-grace", "hist/foreign", "static", "marshaler/across-deadline", "marshaler/exchange"]},
 }
 
